@@ -32,7 +32,7 @@ def spare(m, a):
     return MAXV[(d['element'], d['charge'])] - used(m, a)
 
 
-def rand_molecule(rng, nmax=10, p_ring=0.5, p_arom=0.3, p_charge=0.15, p_multi=0.3):
+def rand_molecule(rng, nmax=10, p_ring=0.5, p_arom=0.3, p_charge=0.15, p_multi=0.3, p_fused=0.25):
     m = new_mol()
     n = rng.randint(1, nmax)
     add_atom(m, rng.choice('CCCCNOS'))
@@ -46,6 +46,14 @@ def rand_molecule(rng, nmax=10, p_ring=0.5, p_arom=0.3, p_charge=0.15, p_multi=0
             break
         a = rng.choice(cands)
         r = rng.random()
+        if r < p_arom * p_fused and not m.nodes[a]['aromatic']:
+            # attach a naphthalene / quinoline system (two aromatic six-rings sharing a bond) by a single bond
+            npos = rng.choice([None, None, 1, 2, 6, 7])
+            ring = [add_atom(m, 'N' if i == npos else 'C', aromatic=True) for i in range(10)]
+            for i, j in [(0, 1), (1, 2), (2, 3), (3, 4), (4, 5), (5, 0), (5, 6), (6, 7), (7, 8), (8, 9), (9, 4)]:
+                m.add_edge(ring[i], ring[j], order=1.5)
+            m.add_edge(a, ring[rng.choice([0, 3])], order=1)
+            continue
         if r < p_arom and len(m) + 6 <= nmax + 6 and not m.nodes[a]['aromatic']:
             # attach a benzene or pyridine ring by a single bond
             ring = []
@@ -108,6 +116,8 @@ def expected_h(m):
         u = used(m, a)
         vals = VALENCES[(d['element'], d['charge'])]
         v = next((x for x in vals if x >= u), None)
+        if v is None and d['aromatic'] and sum(1 for b in m[a] if m.nodes[b]['aromatic']) == 3:
+            v = u          # ring-fusion atom: three aromatic bonds, no hydrogen
         out[a] = None if v is None else int(round(v - u))
     return out
 
@@ -359,7 +369,8 @@ def kekulized(rng, m):
 def cut_case(rng, nmax=9, kmax=4, kinds=None, p_kekule=0.2):
     """one C01 input: molecule, partition, labelled cuts, fragment renderings, base graph string"""
     m0 = rand_molecule(rng, nmax=nmax)
-    kek = any(m0.nodes[a]['aromatic'] for a in m0) and rng.random() < p_kekule
+    fused = any(m0.nodes[a]['aromatic'] and sum(1 for b in m0[a] if m0.nodes[b]['aromatic']) == 3 for a in m0)
+    kek = any(m0.nodes[a]['aromatic'] for a in m0) and not fused and rng.random() < p_kekule
     # m is the molecule as it is WRITTEN in the cut string; m0 the molecule it denotes
     m = kekulized(rng, m0) if kek else m0
     parts = rand_partition(rng, m, kmax=kmax)
